@@ -32,7 +32,9 @@ def make_scale(ctx, clamp=False, ev=None):
     ev.assume_order(Opaque("d0"), Opaque("d1"), "ne")
     ev.assume_order(Opaque("r0"), Opaque("r1"), "ne")
     st = ev.new_state(module="scale")
-    kwargs = {"clamp": TRUE} if clamp else {}
+    init = P.method(P.cls(LS), "__init__")
+    # LinearScale(domain, range, interpolate, clamp): the clamp flag is the fourth parameter, whatever it is called
+    kwargs = {(init.params[4] if init is not None and len(init.params) > 4 else "clamp"): TRUE} if clamp else {}
     s = ev.instantiate(P.cls(LS), [d, r], kwargs, st)
     return ev, st, s, d, r
 
